@@ -646,7 +646,8 @@ func (root *Root) resolveField(
 					nv = av.Value
 				}
 				name, _ := nv.(string)
-				t = root.GetType(name)
+				// Types only, GetType() also finds directives.
+				t = root.types.get(name)
 				if t != nil {
 					fv, ea2 = root.resolve(t, vars, field, root.GetType("__Type"), depth)
 					ea = append(ea, ea2...)
